@@ -188,8 +188,43 @@ def run_probe(p):
         if k == "emul":
             m = emul_helper.x86_machine()
             lines = [x86mnemo.dis(bytes.fromhex(b)) for b in p["b"]]
-            emul_helper.emul_lines(m, lines)
+            before = [snap_instr(l) for l in lines]
+            try:
+                emul_helper.emul_lines(m, lines)
+            finally:
+                if [snap_instr(l) for l in lines] != before:
+                    mut = "instruction object changed by emulation"
             return m.dump_id() + ["--"] + m.dump_mem(), mut
+        if k == "emul-shared":
+            # one state dictionary given to two machines; one of them emulates.  The dictionary, the other machine and an expression
+            # read out of the emulating machine beforehand are inputs / earlier results: they must stay what they were
+            from miasmx.expression.expression_eval_abstract import eval_abs
+            from miasmx.expression import expression as ex_
+            from miasmx.arch import ia32_sem as ia32_reg
+            vars_ = dict(emul_helper.x86_machine().pool.pool_id)
+            for n, v in sorted(p["regs"].items()):
+                r = getattr(ia32_reg, n)
+                vars_[r] = ex_.ExprInt(getattr(__import__("miasmx.tools.modint", fromlist=["x"]), "uint%d" % r.size)(v))
+            snap = lambda d: sorted((str(a), ser_expr(b)) for a, b in d.items())
+            d0 = snap(vars_)
+            m1, m2 = eval_abs(vars_), eval_abs(vars_)
+            held = dict((n, m1.pool[getattr(ia32_reg, n)]) for n in p["regs"])
+            h0 = sorted((n, ser_expr(v)) for n, v in held.items())
+            s2 = snap_machine(m2)
+            lines = [x86mnemo.dis(bytes.fromhex(b)) for b in p["b"]]
+            before = [snap_instr(l) for l in lines]
+            try:
+                emul_helper.emul_lines(m1, lines)
+            finally:
+                if snap(vars_) != d0:
+                    mut = "the state dictionary a machine was built from changed during emulation"
+                elif snap_machine(m2) != s2:
+                    mut = "a second machine built from the same state dictionary changed while the first emulated"
+                elif sorted((n, ser_expr(v)) for n, v in held.items()) != h0:
+                    mut = "an expression read out of the machine before the emulation changed during it"
+                elif [snap_instr(l) for l in lines] != before:
+                    mut = "instruction object changed by emulation"
+            return m1.dump_id() + ["--"] + m1.dump_mem(), mut
     except Exception as e:
         return "EXC:%s" % type(e).__name__, mut
     raise ValueError("bad probe %r" % (p,))
